@@ -41,7 +41,7 @@ fn terminal_str(t: &Terminal) -> String {
     }
 }
 
-fn replay_serve(
+pub fn replay_serve(
     judge: &dyn Fn(&ServeCase, &ServeObs, &mut Sink) -> (Verdict, Option<u64>),
     case: &Value,
     sink: &mut Sink,
@@ -53,7 +53,7 @@ fn replay_serve(
     }
 }
 
-fn exec(
+pub fn exec(
     c: &ServeCase,
     sink: &mut Sink,
     judge: &dyn Fn(&ServeCase, &ServeObs, &mut Sink) -> (Verdict, Option<u64>),
@@ -204,6 +204,28 @@ impl Prop for C01 {
         s.lens.len() * s.plans.len()
     }
     fn run_block(&self, b: usize, sink: &mut Sink) {
+        c01_block(b, sink, &c01_judge);
+    }
+    fn replay(&self, case: &Value, sink: &mut Sink) {
+        replay_serve(&c01_judge, case, sink);
+    }
+    fn floors(&self, _: &Ctx) -> Vec<(&'static str, u64)> {
+        vec![("nontrivial_2xx_bodies", 1000), ("status_206", 100), ("status_416", 10), ("status_304", 10), ("status_412", 10), ("status_405", 10)]
+    }
+    fn assumptions(&self) -> Vec<String> {
+        vec!["bodies above the drain cap (64-256 KiB; 2 KiB for tiny-chunk plans) are judged on the drained prefix only: never more than announced, exact hint bookkeeping".into()]
+    }
+}
+
+pub type ServeJudge = dyn Fn(&ServeCase, &ServeObs, &mut Sink) -> (Verdict, Option<u64>);
+
+pub fn c01_n_blocks(ctx: &Ctx) -> usize {
+    let s = c01_space(ctx);
+    s.lens.len() * s.plans.len()
+}
+
+pub fn c01_block(b: usize, sink: &mut Sink, judge: &ServeJudge) {
+    {
         let ctx = sink.ctx.clone();
         let s = c01_space(&ctx);
         let len = s.lens[b / s.plans.len()];
@@ -233,19 +255,10 @@ impl Prop for C01 {
                         c.hdrs.push(("range".into(), rv.clone()));
                     }
                     c.hdrs.extend(cond.iter().cloned());
-                    exec(&c, sink, &c01_judge);
+                    exec(&c, sink, judge);
                 }
             }
         }
-    }
-    fn replay(&self, case: &Value, sink: &mut Sink) {
-        replay_serve(&c01_judge, case, sink);
-    }
-    fn floors(&self, _: &Ctx) -> Vec<(&'static str, u64)> {
-        vec![("nontrivial_2xx_bodies", 1000), ("status_206", 100), ("status_416", 10), ("status_304", 10), ("status_412", 10), ("status_405", 10)]
-    }
-    fn assumptions(&self) -> Vec<String> {
-        vec!["bodies above the drain cap (64-256 KiB; 2 KiB for tiny-chunk plans) are judged on the drained prefix only: never more than announced, exact hint bookkeeping".into()]
     }
 }
 
@@ -1284,6 +1297,25 @@ impl Prop for C06 {
         c06_lens().len() * c06_hdr_sets().len()
     }
     fn run_block(&self, b: usize, sink: &mut Sink) {
+        c06_block(b, sink, &c06_judge);
+    }
+    fn replay(&self, case: &Value, sink: &mut Sink) {
+        replay_serve(&c06_judge, case, sink);
+    }
+    fn floors(&self, _: &Ctx) -> Vec<(&'static str, u64)> {
+        vec![("multipart_complete", 1000), ("multipart_prefix_only", 10), ("max_parts", 8), ("max_content_length_digits", 19)]
+    }
+    fn assumptions(&self) -> Vec<String> {
+        vec!["part header lines may come in any order; the first delimiter may omit its leading CRLF (RFC 2046); bodies above the drain cap are parsed as a prefix and their Content-Length is compared with the total implied by the observed part format".into()]
+    }
+}
+
+pub fn c06_n_blocks() -> usize {
+    c06_lens().len() * c06_hdr_sets().len()
+}
+
+pub fn c06_block(b: usize, sink: &mut Sink, judge: &ServeJudge) {
+    {
         let ctx = sink.ctx.clone();
         let hs = c06_hdr_sets();
         let len = c06_lens()[b / hs.len()];
@@ -1341,18 +1373,9 @@ impl Prop for C06 {
                 if with_if_range {
                     c.hdrs.push(("if-range".into(), b"\"v1\"".to_vec()));
                 }
-                exec(&c, sink, &c06_judge);
+                exec(&c, sink, judge);
             }
         }
-    }
-    fn replay(&self, case: &Value, sink: &mut Sink) {
-        replay_serve(&c06_judge, case, sink);
-    }
-    fn floors(&self, _: &Ctx) -> Vec<(&'static str, u64)> {
-        vec![("multipart_complete", 1000), ("multipart_prefix_only", 10), ("max_parts", 8), ("max_content_length_digits", 19)]
-    }
-    fn assumptions(&self) -> Vec<String> {
-        vec!["part header lines may come in any order; the first delimiter may omit its leading CRLF (RFC 2046); bodies above the drain cap are parsed as a prefix and their Content-Length is compared with the total implied by the observed part format".into()]
     }
 }
 
@@ -1449,7 +1472,7 @@ pub fn c07_judge(c: &ServeCase, o: &ServeObs, sink: &mut Sink) -> (Verdict, Opti
 }
 
 /// All chunk-size tuples of 1..=4 chunks with sizes 0..=3.
-fn c07_tuples() -> Vec<Vec<u32>> {
+pub fn c07_tuples() -> Vec<Vec<u32>> {
     let mut v = Vec::new();
     for k in 1..=4u32 {
         for code in 0..4u32.pow(k) {
@@ -2144,7 +2167,7 @@ impl Prop for C15 {
         let ctx = sink.ctx.clone();
         let s = c01_space(&ctx);
         let mut rng = Rng::from_parts(ctx.seed, &[15, b as u64]);
-        let mut run = |c: &ServeCase, sink: &mut Sink| {
+        let run = |c: &ServeCase, sink: &mut Sink| {
             if !sink.admit() {
                 return;
             }
